@@ -343,4 +343,103 @@ theorem run_mono (P : Prog) {f f' : Nat} (hle : f ≤ f') (main : Nat) (args : L
         simp only [execB_mono P hle _ _ _ hx]
         exact h
 
+/-! ### Loop unrolling for every trip count -/
+
+/-- `Trip c hi st lo n`: the loop `for i := lo; i <c> hi; i += st` makes exactly
+`n` iterations (the condition holds on `lo, lo+st, .., lo+(n-1)st` and fails
+on `lo + n*st`).  Decidable: this is the compile-time trip count. -/
+def Trip (c : Cmp) (hi st : Int) : Int → Nat → Bool
+  | lo, 0 => !c.holds lo hi
+  | lo, n + 1 => c.holds lo hi && Trip c hi st (lo + st) n
+
+/-- The `n`-fold sequential composition `body[i:=lo]; body[i:=lo+st]; ...`:
+each copy runs in a fresh scope holding the loop constant; a `return` inside a
+copy ends the composition. -/
+def iterBody (P : Prog) (f : Nat) (i : String) (st : Int) (body : List Stmt) : Int → Nat → Env → Option Outcome
+  | _, 0, env => some (.normal env)
+  | lo, n + 1, env =>
+    match execB P f body ([(i, loopVal lo)] :: env) with
+    | some (.normal env') => iterBody P f i st body (lo + st) n env'.tail
+    | r => r
+
+theorem iterBody_mono (P : Prog) {f f' : Nat} (hle : f ≤ f') (i : String) (st : Int) (body : List Stmt) :
+    ∀ (n : Nat) (lo : Int) (env : Env) (o : Outcome),
+      iterBody P f i st body lo n env = some o → iterBody P f' i st body lo n env = some o := by
+  intro n
+  induction n with
+  | zero => intro lo env o h; simpa [iterBody] using h
+  | succ n ih =>
+    intro lo env o h
+    simp only [iterBody] at h ⊢
+    cases hb : execB P f body ([(i, loopVal lo)] :: env) with
+    | none => simp [hb] at h
+    | some r =>
+      simp only [hb] at h
+      simp only [execB_mono P hle _ _ _ hb]
+      cases r with
+      | normal env' => exact ih _ _ _ h
+      | returned vs => exact h
+
+/-- Loop unrolling, every trip count: if the `n`-fold composition of the body
+is defined with fuel `f`, the `for` statement gives the same outcome (with the
+`n + 1` extra units of fuel the loop itself consumes). -/
+theorem for_unroll (P : Prog) (f : Nat) (i : String) (c : Cmp) (hi st : Int) (body : List Stmt) :
+    ∀ (n : Nat) (lo : Int) (env : Env) (o : Outcome), Trip c hi st lo n = true →
+      iterBody P f i st body lo n env = some o →
+      execFor P (f + n + 1) i lo c hi st body env = some o := by
+  intro n
+  induction n with
+  | zero =>
+    intro lo env o ht h
+    simp only [Trip, Bool.not_eq_true'] at ht
+    simp only [iterBody] at h
+    simp [execFor, ht, h]
+  | succ n ih =>
+    intro lo env o ht h
+    simp only [Trip, Bool.and_eq_true] at ht
+    simp only [iterBody] at h
+    have e : f + (n + 1) + 1 = (f + n + 1) + 1 := by omega
+    rw [e]
+    simp only [execFor, ht.1, if_true]
+    cases hb : execB P f body ([(i, loopVal lo)] :: env) with
+    | none => simp [hb] at h
+    | some r =>
+      simp only [hb] at h
+      simp only [execB_mono P (show f ≤ f + n + 1 by omega) _ _ _ hb]
+      cases r with
+      | normal env' => exact ih _ _ _ ht.2 h
+      | returned vs => exact h
+
+/-- Conversely: whatever the `for` statement yields is what the composition
+yields (at the same fuel). -/
+theorem for_unroll_conv (P : Prog) (i : String) (c : Cmp) (hi st : Int) (body : List Stmt) :
+    ∀ (n : Nat) (f : Nat) (lo : Int) (env : Env) (o : Outcome), Trip c hi st lo n = true →
+      execFor P f i lo c hi st body env = some o →
+      iterBody P f i st body lo n env = some o := by
+  intro n
+  induction n with
+  | zero =>
+    intro f lo env o ht h
+    simp only [Trip, Bool.not_eq_true'] at ht
+    cases f with
+    | zero => simp [execFor] at h
+    | succ f => simpa [execFor, ht, iterBody] using h
+  | succ n ih =>
+    intro f lo env o ht h
+    simp only [Trip, Bool.and_eq_true] at ht
+    cases f with
+    | zero => simp [execFor] at h
+    | succ f =>
+      simp only [execFor, ht.1, if_true] at h
+      simp only [iterBody]
+      cases hb : execB P f body ([(i, loopVal lo)] :: env) with
+      | none => simp [hb] at h
+      | some r =>
+        simp only [hb] at h
+        simp only [execB_mono P (Nat.le_succ f) _ _ _ hb]
+        cases r with
+        | normal env' =>
+          exact iterBody_mono P (Nat.le_succ f) i st body _ _ _ _ (ih _ _ _ _ ht.2 h)
+        | returned vs => exact h
+
 end Mpc.Mpcl
